@@ -27,7 +27,7 @@ RULE = (
     "spaces, None; write_foreign(file, kind) with kind in {valid TSV, valid CSV, empty file, "
     "header only, ragged rows, no cluster_id column, non-integer ids, binary garbage, generated "
     "byte strings (fragments of headers, delimiters, quotes, NULs, invalid UTF-8), "
-    "cluster_info.tsv redefining a saved field (must be ignored)} - fields of foreign files are "
+    "cluster_info.tsv redefining a saved field (must be ignored), an old-style CSV redefining saved fields (read before the TSV files, so the saved mapping wins)} - fields of foreign files are "
     "disjoint from saved field names and from each other; save_spikes_subset_waveforms(max per "
     "template, max channels, unit factor); close; reload. Steps <= 10 (quick) / 25 (thorough). "
     "Oracle: dictionary reference model {last saved clusters, field -> mapping without None, "
@@ -59,7 +59,7 @@ _value = st.one_of(st.integers(-5, 50), st.floats(-100, 100, allow_nan=False),
 _mapping = st.lists(st.tuples(st.integers(0, 30), _value), max_size=5,
                     unique_by=lambda kv: kv[0]).map(lambda kv: [list(x) for x in kv])
 FOREIGN_KINDS = ['tsv', 'csv', 'empty', 'header', 'ragged', 'nocid', 'strids', 'binary', 'info',
-                 'fuzz', 'fuzz']
+                 'fuzz', 'fuzz', 'csvdup']
 
 
 def _val(v):
@@ -163,6 +163,18 @@ class Interp(object):
         d = self.T.dir
         fa, fb = 'f%d_a' % idx, 'f%d_b' % idx
         rows = op['rows']       # list of [cid, a, b] with simple token values or None
+        if k == 'csvdup':
+            # an old-style CSV that also has columns named like saved fields: CSV files are read
+            # before TSV files, so the saved cluster_<field>.tsv keeps the last word
+            p = d / ['cluster_groups.csv', 'zz_old.csv', 'aaa.csv'][idx % 3]
+            fields = sorted(self.meta) or ['group']
+            cids = sorted(set([r[0] for r in rows] + [c for f in self.meta.values() for c in f] + [0]))
+            lines = [','.join(['cluster_id'] + fields)] + \
+                [','.join([str(c)] + ['STALE'] * len(fields)) for c in cids]
+            p.write_text('\n'.join(lines) + '\n')
+            self.stats['info_file'] = True
+            self.csvdup_fields = getattr(self, 'csvdup_fields', set()) | set(fields)
+            return
         if k == 'info':
             # must be ignored: redefines a saved field with different values
             p = d / 'cluster_info.tsv'
@@ -245,6 +257,8 @@ class Interp(object):
         md = m.metadata
         for field, mapping in self.meta.items():
             if not mapping:
+                if field in getattr(self, 'csvdup_fields', ()):
+                    continue    # an empty TSV defines nothing, so an older CSV column shows through
                 require(not md.get(field), 'empty saved field %r has entries' % field,
                         key='reload-metadata', observed=md.get(field))
                 continue
